@@ -13,7 +13,9 @@ claim('C05', 'other', 'contract-based deductive verification of the Tseytin tran
       T_ASSUME + 'SAT solver soundness/completeness assumed (python-sat absent; z3-backed shim in the bounded layer); proof rule for recursive procedures (partial correctness); rule R2.', 'DESIGN.md §6 C05')
 claim('C14', 'other', 'contract-based deductive verification on an abstract heap (state as substitution): convert_gate with all callees inlined, WF/frame/local-equation obligations, loop invariant by prefix-count view',
       'For an arbitrary well-formed circuit and an arbitrary gate of each of the 18 types, convert_gate preserves WF (users multiset, inputs, outputs, acyclicity via ghost rank, blocks), '
-      'changes only that gate plus one fresh helper, keeps the local gate equation, leaves only bench types and puts the helper into the blocks of the gate — proved for all circuits; into_bench as a whole is bounded.',
+      'changes only that gate plus one fresh helper, keeps the local gate equation, leaves only bench types and puts the helper into the blocks of the gate — proved for all circuits. '
+      'into_bench as a whole is proved on an arbitrary circuit by a loop invariant with convert_gate used through that contract: WF kept, only bench types remain, original gates, inputs and outputs kept, '
+      'and every valuation satisfying the new gate equations satisfies the original ones (rule R2 turns this into truth-table preservation). The end-to-end statement is additionally exercised by the bounded stand-in.',
       T_ASSUME + 'Proof rule R2 (DAG induction) lifts the local equation to truth-table preservation; ARITY precondition on the converted gate.', 'DESIGN.md §6 C14')
 claim('C15', 'other', 'contract-based deductive verification of the three-valued operator tables (monotonicity/totality VCs, fold induction); bounded stand-in for circuit-level evaluation',
       'Every operator is proved monotone w.r.t. the information order and total on total arguments for all argument values; n-ary operators are proved to be folds of their binary case for every arity; '
@@ -43,7 +45,7 @@ for _k in ('C02', 'C07', 'C09'):
     NA.pop(_k, None)
 claim('C02', 'other', 'contract-based deductive verification (class-invariant rule R5) on an abstract heap: real mutator bodies symbolically executed, WF clauses discharged by z3/cvc5; prefix-count loop invariants for gates of arbitrary arity; modular call rule for the users-index primitives',
       'For an arbitrary well-formed circuit: _add_user/_remove_user meet the contracts used at their call sites; _emplace_gate, _add_gate, emplace_gate, add_gate (gate of any type and ANY arity), remove_gate/_remove_gate (incl. blocks and outputs), '
-      'rename_gate (arbitrary arity, any number of users, repeated outputs, blocks; three loops cut by closed-form invariants), mark_as_output, set_outputs, delete_block preserve every WF clause, with exact raise conditions and untouched state on raise — proved for all circuits; converters: see C14. '
+      'rename_gate (arbitrary arity, any number of users, repeated outputs, blocks; three loops cut by closed-form invariants), into_bench (loop invariant, convert_gate through its contract proved under C14), mark_as_output, set_outputs, delete_block preserve every WF clause, with exact raise conditions and untouched state on raise — proved for all circuits; converters: see C14. '
       'The other public mutators (set_inputs, add_inputs, replace_inputs, order_*, make_block*, connect_circuit family, replace_subcircuit, copy) and whole histories are exercised by the bounded stand-in, so the claim is not `proof`.',
       T_ASSUME + 'Abstract model of the five Circuit containers (count/positional views); background lemmas on tuple counts; histories: bounded (<=2 calls exhaustive + random <=6).', 'DESIGN.md §6 C02')
 claim('C07', 'other', 'contract-based deductive verification on an abstract host circuit: generator + circuit code symbolically executed, value equation / freshness frame / WF / basis obligations discharged by z3',
